@@ -8,6 +8,7 @@ import NutsModel.C10.DidStore
 import NutsModel.Facts.C10
 import NutsProofs.Lemmas.C10
 import NutsProofs.Lemmas.C10Obs
+import NutsProofs.Lemmas.C10Shelves
 
 namespace Nuts.C10.Props
 open Nuts.C10
@@ -446,6 +447,45 @@ theorem history_is_the_sorted_event_list (cfg : Cfg) (l : List Event) (hU : RefF
     rw [← hh] at hx
     simp [h3 x hx]
 
+/-! ### the shelf level: MetaRef numbering, metadata keys, latest pointer, Resolve's walk -/
+
+/-- **The shelves refine the chain.** For every arrival sequence of a DID's events (any order, duplicates anywhere) the
+    literal second write transaction of `store.Add` — base metadata read through the base event's `MetaRef`, records
+    Put under DID+`Version`, `latest` = last `Version`, all `MetaRef`s renumbered by `writeEventList` — succeeds whenever
+    the chain model does and leaves: event `i` of the stored list pointing at record `i`, record `i` = version `i` of
+    the chain, `latest` = the last version; and `store.Resolve`'s walk (start at `latest`, go on with `Version - 1`)
+    answers exactly what the chain model answers, for every resolve metadata. -/
+theorem shelves_refine_chain (cfg : Cfg) (l : List Event) (a : DidState) (h : addDidAll cfg {} l = .ok a) :
+    ∃ st, sAddAll cfg {} l = .ok st ∧ SInv st a ∧ ∀ rm, sResolve st rm = resolveChain rm a.chain.reverse := by
+  obtain ⟨st, h1, h2, h3⟩ := sAddAll_refines cfg l {} {} a (inv_empty cfg) sInv_empty h
+  exact ⟨st, h1, h2, fun rm => sResolve_refines cfg st a h3 h2 rm⟩
+
+/-- store-level form: what `Resolve` reads from the shelves of DID `id` after any arrival sequence on the store -/
+theorem shelf_resolve_eq_resolve (cfg : Cfg) (l : List Event) (s : Store) (h : addAll cfg {} l = .ok s) (id : String) :
+    ∃ st, sAddAll cfg {} (l.filter (fun e => e.doc.id = id)) = .ok st ∧ SInv st (s.get id) ∧
+      ∀ rm, sResolve st rm = resolve s id rm := by
+  have hget := addAll_get cfg l {} s h id
+  have h0 : ({} : Store).get id = {} := by simp [Store.get, alGet]
+  rw [h0] at hget
+  obtain ⟨st, h1, h2, h3⟩ := shelves_refine_chain cfg _ (s.get id) hget
+  exact ⟨st, h1, h2, fun rm => by rw [h3 rm]; rfl⟩
+
+/-- hence order independence holds for the literal shelf-level reads as well -/
+theorem shelf_level_order_independent (σ₁ σ₂ : Field → List Entry → List Entry)
+    (h₁ : ∀ f l, (σ₁ f l).Perm l) (h₂ : ∀ f l, (σ₂ f l).Perm l)
+    (l₁ l₂ : List Event) (hU : RefFun l₁) (hsame : ∀ e, e ∈ l₁ ↔ e ∈ l₂) (s₁ s₂ : Store)
+    (r₁ : addAll (cfgOf σ₁ Facts.C10.mergeSortedFields) {} l₁ = .ok s₁)
+    (r₂ : addAll (cfgOf σ₂ Facts.C10.mergeSortedFields) {} l₂ = .ok s₂) (id : String) :
+    ∃ st₁ st₂, sAddAll (cfgOf σ₁ Facts.C10.mergeSortedFields) {} (l₁.filter (fun e => e.doc.id = id)) = .ok st₁ ∧
+      sAddAll (cfgOf σ₂ Facts.C10.mergeSortedFields) {} (l₂.filter (fun e => e.doc.id = id)) = .ok st₂ ∧
+      (∀ rm, sResolve st₁ rm = sResolve st₂ rm) ∧ st₁.events = st₂.events ∧ st₁.latest = st₂.latest := by
+  obtain ⟨st₁, a1, b1, c1⟩ := shelf_resolve_eq_resolve _ l₁ s₁ r₁ id
+  obtain ⟨st₂, a2, b2, c2⟩ := shelf_resolve_eq_resolve _ l₂ s₂ r₂ id
+  obtain ⟨hget, hres⟩ := resolve_order_independent σ₁ σ₂ h₁ h₂ l₁ l₂ hU hsame s₁ s₂ r₁ r₂ id
+  refine ⟨st₁, st₂, a1, a2, fun rm => by rw [c1 rm, c2 rm, hres rm], ?_, ?_⟩
+  · rw [b1.events, b2.events, hget]
+  · rw [b1.latest, b2.latest, hget]
+
 /-! ### non-vacuity: a concrete 2-way fork, two arrival orders, hypotheses met, conflict visible -/
 
 private def docOf (svc : String) : Doc :=
@@ -501,6 +541,12 @@ example : (match addAll cfg0 {} [evD, evR, evB, evA, evCreate] with
       (match resolve s "did:nuts:x" (some { time := some 35 }) with | .ok (_, m) => !m.deactivated | _ => false) &&
       (match resolve s "did:nuts:x" (some { hash := some "pB", time := some 15, allowDeactivated := true }) with
         | .err e => e == "not-found" | _ => false)
+    | _ => false) = true := by decide
+
+example : (match sAddAll cfg0 {} [evB, evA, evCreate, evA] with
+    | .ok st => st.events.map (·.metaRef) == [some 0, some 1, some 2] && st.events.map (·.ev.ref) == [100, 150, 200] &&
+        st.latest == some 2 && st.conflicted && st.metas.length == 3 &&
+        (match sResolve st (some { time := some 15 }) with | .ok (_, m) => m.version == 0 | _ => false)
     | _ => false) = true := by decide
 
 end Nuts.C10.Props
